@@ -97,7 +97,8 @@ def handleDec (mode : String) (hex : String) (impl : List String) : String :=
   match stringOfHex? hex with
   | none =>
     -- invalid UTF-8: outside `String`; only the crash-freedom half is checkable
-    if impl.head? = some "panic" then "VIOL clause=ta.no_panic" else "SKIP reason=utf8"
+    if impl.head? = some "panic" then "VIOL clause=ta.no_panic"
+    else if impl.head? = some "hang" then "VIOL clause=ta.no_hang" else "SKIP reason=utf8"
   | some text =>
     let lines := scanLines text
     let implS := String.intercalate " " impl
@@ -105,6 +106,8 @@ def handleDec (mode : String) (hex : String) (impl : List String) : String :=
     let mS := (decodeLines specTables lines : Outcome (Session Float))
     if impl.head? = some "panic" then
       s!"VIOL clause=ta.no_panic model={(render mG).take 40}"
+    else if impl.head? = some "hang" then "VIOL clause=ta.no_hang"
+    else if impl.head? = some "hang-skipped" then "SKIP reason=hang-skipped"
     else match mS with
     | .unmodelled => "SKIP reason=grammar"
     | _ =>
@@ -161,6 +164,8 @@ def handlePair (target imp met : String) (impl : List String) : String :=
         | _, _ => "CORR clause=ta.pair_model model=none"
     | _, _ => "BAD"
   | ["panic"] => "VIOL clause=ta.no_panic"
+  | ["hang"] => "VIOL clause=ta.no_hang"
+  | ["hang-skipped"] => "SKIP reason=hang-skipped"
   | _ => "VIOL clause=ta.dual_unit impl=failed"
 
 def handle (args : List String) (impl : List String) : String :=
